@@ -356,8 +356,9 @@ def gen_gw(rng, n, counter=[0]):
         dates = []
         for _i in range(nobs):
             q = rng.random()
-            dates.append(s if q < 0.15 else e if q < 0.25 else rng.randint(s - 6, s - 1) if q < 0.4
-                         else rng.randint(e + 1, e + 6) if q < 0.55 else rng.randint(s, e))
+            far = rng.choice([6, 6, 40, 400])
+            dates.append(s if q < 0.15 else e if q < 0.25 else rng.randint(s - far, s - 1) if q < 0.4
+                         else rng.randint(e + 1, e + far) if q < 0.55 else rng.randint(s, e))
         q = rng.random()
         if q < 0.55:
             dates = sorted(set(dates))
@@ -388,10 +389,10 @@ def gen_gw(rng, n, counter=[0]):
             exp = ["S", str(len(z))] + [hx(x) for x in z]
             win = z[:L]
             exp += ["N"] if np.isnan(win).any() else ["S", str(L)] + [hx(x) for x in win]
-            # a NaN depth does not stop the (full) initialisation: it is stored in InitCond.z_gw and the first
-            # day's check_groundwater_table raises UnboundLocalError (finding 10)
+            # after commit 400240e: one depth per simulation day, never NaN, and the initialisation does not raise
             if raised is not None: extra.append("INITRAISED:" + type(raised).__name__)
-            if np.isnan(win).any() != bool(np.isnan(z[0])): extra.append("NANNOTLEADING")
+            if len(z) != L: extra.append("LENGTH")
+            if np.isnan(z).any(): extra.append("NAN")
             if raised is None:
                 try:
                     m._initialize()
@@ -408,10 +409,13 @@ def gen_gw(rng, n, counter=[0]):
         COVER["gw:" + tag] += 1
         COVER["gw:" + ("err%s" % exp[1] if exp[0] == "N" else "ok")] += 1
         if exp[0] == "S" and present and len(dates) >= 2 and method == "Variable":
-            COVER["gw:var_" + ("nan" if np.isnan(z[:L]).any() else "defined")] += 1
-            COVER["gw:var_len" + ("=" if len(z) == L else ">") + "window"] += 1
+            COVER["gw:var_obs_before_start"] += any(d < s for d in dates)
+            COVER["gw:var_obs_after_end"] += any(d > e for d in dates)
+            COVER["gw:var_all_obs_outside"] += all(d < s or d > e for d in dates)
+            COVER["gw:var_no_obs_on_start_day"] += (s not in dates)
+            COVER["gw:var_duplicate_dates"] += (len(set(dates)) < len(dates))
+            COVER["gw:var_unsorted"] += (dates != sorted(dates))
         if exp[0] == "S" and present and len(dates) >= 2 and dates != sorted(dates): COVER["gw:unsorted"] += 1
-        if full and z is not None and len(z) and np.isnan(z[0]): COVER["gw:full_init_with_nan_day0"] += 1
         COVER["gw:" + ("full" if full else "light")] += 1
         line = "%s %d %d %d %d %s" % (tb(present), mcode, s, e, len(dates), " ".join("%d %s" % (d, hx(v)) for d, v in zip(dates, vals)))
         yield Case("gw", line.strip(), exp + extra,
